@@ -42,10 +42,16 @@ TRUSTED = [
     '(ndim > 1) or a scalar, copy.copy(arr) owns a new buffer, assignment broadcasts (surplus leading 1-dims dropped, lists converted with '
     'at most ndim(window) dimensions), int64 only; a tuple-of-ints key (numpy multi-dimensional index) is NOT modelled: the model skips the '
     'op, the real code still runs the copying ones and the ORACLE alone judges them; key_paths= views are not modelled',
+    'reserved keys vs plain strings of the same spelling: on the wire the reserved key is the bare string "SELF"/"SKIP", a plain str key is '
+    '{"s": "SELF"}; World.pkey builds Key.SELF / the str, the driver PKey.self / PKey.str "SELF"; `_is_key` is written out in '
+    'Model/TreeKey.lean (Python types of key objects, isinstance along Reserved<str and Index<int, == on key objects) and proved equal to the '
+    'pattern matching of Model/Tree.lean (C18_reserved_vs_plain_model); modelled-not-verified: Reserved subclasses str with inherited __eq__/__hash__',
 ]
 ASSUMPTIONS = [
     'leaves are int/str/None; ndarrays are int64, 1-D or 2-D, C-contiguous (owning arrays and views of them); dict keys are '
-    'str/int/Index/Literal objects (an Index and the equal int never in one dict); the view is built without key_paths',
+    'str/int/Index/Literal objects (an Index and the equal int never in one dict; str keys of ANY spelling, the spellings of the reserved keys included; '
+    'never a Reserved OBJECT, a bool or a float as a dict key of the input: 1 == True == 1.0 collide by value like Index(1) == 1 and are not modelled); '
+    'the view is built without key_paths',
     'no cyclic input data (in-place sets never store an ancestor); ndarray elements are assigned ints only where the get/set law is claimed',
 ]
 RULE = ('heaps of <= ~25 cells (trees of depth <= 4 of dict/list/tuple with int/str/None/ndarray leaves, ~15% aliased '
@@ -62,6 +68,14 @@ RULE = ('heaps of <= ~25 cells (trees of depth <= 4 of dict/list/tuple with int/
         'a copying set/update that changes the set of leaf paths (fresh key, append, leaf->subtree, subtree->leaf), iterate the '
         'derived view object itself, chains of these. Along a sequence the SAME view objects are used (the view an op returned is '
         'the one later ops read) and the items oracle is evaluated on every source and derived view object; '
+        '(c) SC18, user keys that collide BY VALUE with reserved / special keys: dict keys drawn from a pool of PLAIN strings spelled '
+        "'SELF', 'SKIP', '', 'Index(0)', 'Literal(1)', \"Reserved('SELF')\", 'DEFAULT_FILTER', '0', ... — fixed fresh paths through them on NullMap / {} / []; "
+        'small-exhaustive: every path of length <= 2 (<= 3 on a 3-level tree) over an alphabet holding the plain AND the reserved spellings on trees with such keys '
+        '(copying set + read back + items + apply, read + in-place set + items, multi-key set + read); a directed arm cycling operation kind x spelling x depth '
+        '(the plain key 0..3 levels down, dict/list/tuple levels above it, siblings beside it, a random subtree below it; first op through the key, then read-back / '
+        'items of the result / the same path with the RESERVED key swapped in / fresh paths through the spellings); the random arm again with 60% of the dicts keyed '
+        'from the pool and 12% of the paths with one plain<->reserved swap. ENFORCED coverage (exit 2 otherwise): each of get / multi-key get / copying set / multi-key set / '
+        "copy_and_update / in-place set / items / apply SUCCEEDED on an input root through a plain 'SELF' and through a plain 'SKIP' dict key at depth 0, 1 and >= 2; "
         'non-trivial = at least one successful copying set/update/apply on a container root of depth >= 2')
 
 
